@@ -1002,3 +1002,28 @@ def gen_ring_mixed(rng):
     order = list(range(n))
     rng.shuffle(order)
     return {"comps": permute(comps, order), "end": max(steps) * rng.choice([3, 5, 8])}
+
+
+def has_ctrl(case):
+    return any(c.get("step_by") is not None for c in case["comps"])
+
+
+def gen_ctrl_step(rng):
+    """A consumer whose step length is switched from outside (by a controller component's updates) between two of its
+    own updates: the time it announces must be the time its update uses.  Monitor only (in the Coq model the step is a
+    function of the component's own update count)."""
+    unit = rng.choice(UNITS)
+    sa = unit
+    comps = [{"kind": "T", "start": 0, "steps": [sa], "initpull": False, "nout": 1, "inputs": []},
+             {"kind": "T", "start": 0, "steps": [unit * rng.choice([1, 2, 3])], "initpull": False, "nout": 0, "inputs": []},
+             {"kind": "T", "start": 0, "steps": [unit * x for x in rng.sample([2, 3, 5, 7, 4], rng.choice([2, 3]))],
+              "initpull": rng.random() < 0.3, "nout": 0, "step_by": 1,
+              "inputs": [{"src": [0, 0], "chain": [["pass"]] if rng.random() < 0.3 else []}]}]
+    order = list(range(3))
+    rng.shuffle(order)
+    pos = {old: new for new, old in enumerate(order)}
+    out = permute(comps, order)
+    for c in out:
+        if c.get("step_by") is not None:
+            c["step_by"] = pos[c["step_by"]]
+    return {"comps": out, "end": unit * rng.choice([15, 20, 30])}
